@@ -228,7 +228,7 @@ fn lexi_x_to_9(x: &str, incl: bool) -> Result<String> {
             Ok(mk_or(parts))
         }
     } else if x.is_empty() {
-        Ok("[0-9]*[1-9]".to_string())
+        Ok("[0-9]*[1-9][0-9]*".to_string())
     } else {
         let x0 = x
             .chars()
@@ -252,9 +252,10 @@ fn lexi_x_to_9(x: &str, incl: bool) -> Result<String> {
 }
 
 fn lexi_0_to_x(x: &str, incl: bool) -> Result<String> {
+    // non-empty digit strings d with 0.d <= 0.x (or < if !incl); x has no trailing zeros
     if x.is_empty() {
         if incl {
-            Ok("".to_string())
+            Ok("0+".to_string())
         } else {
             Err(anyhow!("Inclusive flag must be true for an empty string"))
         }
@@ -276,13 +277,12 @@ fn lexi_0_to_x(x: &str, incl: bool) -> Result<String> {
             return Ok(format!("[0-{}][0-9]*", x0 - 1));
         }
 
-        let mut parts = vec![format!(
-            "{}{}",
-            x.chars()
-                .next()
-                .ok_or_else(|| anyhow!("String x is unexpectedly empty"))?,
-            lexi_0_to_x(x_rest, incl)?
-        )];
+        // a shorter spelling (x0 alone) and trailing zeros are inside the bound too
+        let mut parts = vec![if x_rest.is_empty() {
+            format!("{x0}0*")
+        } else {
+            format!("{}({})?", x0, lexi_0_to_x(x_rest, incl)?)
+        }];
         if x0 > 0 {
             parts.push(format!("[0-{}][0-9]*", x0 - 1));
         }
@@ -296,7 +296,7 @@ fn lexi_range(ld: &str, rd: &str, ld_incl: bool, rd_incl: bool) -> Result<String
     }
     if ld == rd {
         if ld_incl && rd_incl {
-            Ok(ld.to_string())
+            Ok(format!("{ld}0*"))
         } else {
             Err(anyhow!(
                 "Empty range when ld equals rd and not both inclusive"
@@ -318,13 +318,13 @@ fn lexi_range(ld: &str, rd: &str, ld_incl: bool, rd_incl: bool) -> Result<String
         if l0 == r0 {
             let ld_rest = &ld[1..];
             let rd_rest = &rd[1..];
-            Ok(format!(
-                "{}{}",
-                ld.chars()
-                    .next()
-                    .ok_or_else(|| anyhow!("ld is unexpectedly empty"))?,
-                lexi_range(ld_rest, rd_rest, ld_incl, rd_incl)?
-            ))
+            let rest = lexi_range(ld_rest, rd_rest, ld_incl, rd_incl)?;
+            // the spelling that stops here has value ld when the rest of ld is zeros
+            if ld_incl && ld_rest.trim_end_matches('0').is_empty() {
+                Ok(format!("{l0}({rest})?"))
+            } else {
+                Ok(format!("{l0}{rest}"))
+            }
         } else {
             if l0 >= r0 {
                 return Err(anyhow!("l0 must be less than r0"));
@@ -341,14 +341,10 @@ fn lexi_range(ld: &str, rd: &str, ld_incl: bool, rd_incl: bool) -> Result<String
                 parts.push(format!("[{}-{}][0-9]*", l0 + 1, r0 - 1));
             }
             let rd_rest = rd[1..].trim_end_matches('0');
-            if !rd_rest.is_empty() || rd_incl {
-                parts.push(format!(
-                    "{}{}",
-                    rd.chars()
-                        .next()
-                        .ok_or_else(|| anyhow!("rd is unexpectedly empty"))?,
-                    lexi_0_to_x(rd_rest, rd_incl)?
-                ));
+            if !rd_rest.is_empty() {
+                parts.push(format!("{}({})?", r0, lexi_0_to_x(rd_rest, rd_incl)?));
+            } else if rd_incl {
+                parts.push(format!("{r0}0*"));
             }
             Ok(mk_or(parts))
         }
@@ -416,7 +412,12 @@ pub fn rx_float_range(
             }
             if left == right {
                 if left_inclusive && right_inclusive {
-                    Ok(format!("({})", escape(&float_to_str(left))))
+                    let l = float_to_str(left);
+                    if l.contains('.') {
+                        Ok(format!("({}0*)", escape(&l)))
+                    } else {
+                        Ok(format!("({}(\\.0+)?)", escape(&l)))
+                    }
                 } else {
                     Err(anyhow!(
                         "Empty range when left equals right and not both inclusive"
